@@ -1843,12 +1843,12 @@ Proof.
   - destruct (table s (tpeer th)); inv_some; split; [apply G; reflexivity|auto| apply G; reflexivity|auto].
   - destruct (listening s (tpeer th)); [unfold new_conn in H|]; inv_some; (split; [apply G; reflexivity|auto]).
   - destruct (ident_send s c o); inv_some; (split; [apply G; reflexivity|]); auto.
-    intros p _. now destruct (close_refused_frame s c) as (_ & -> & _).
+    intros p _. cbn. now destruct (close_refused_frame s c) as (_ & -> & _).
   - destruct (closed s); inv_some; (split; [apply G; reflexivity|]).
-    + intros p _. now destruct (close_refused_frame s c) as (_ & -> & _).
+    + intros p _. cbn. now destruct (close_refused_frame s c) as (_ & -> & _).
     + intros p Hp. cbn. now rewrite upd_other.
   - destruct (closed s); inv_some; [split; [apply G; reflexivity|]|].
-    + intros p _. now destruct (close_refused_frame s c) as (_ & -> & _).
+    + intros p _. cbn. now destruct (close_refused_frame s c) as (_ & -> & _).
     + destruct (conns s c) as [x|]; [|discriminate]. destruct (loop x); try discriminate.
       destruct (t0 =? t); inv_some. split; [apply G; reflexivity|auto].
   - destruct (tmsgs th) as [|m rest]; inv_some; [split; [apply G; reflexivity|auto]|].
@@ -1872,7 +1872,7 @@ Proof.
   destruct (thread_step_peer _ _ _ _ _ Hth E) as ((th1 & Hth1 & Hp1) & Ht).
   destruct (thread_step_frame _ _ _ _ I E) as (F1 & F2 & _).
   destruct (IH s1 t o th1 (step_thread _ _ _ _ I E) Hth1) as (A & B & C & D).
-  repeat split; auto; try congruence.
+  split; [exact A|]. split; [congruence|]. split; [congruence|].
   intros p Hp. rewrite D by congruence. now apply Ht.
 Qed.
 
@@ -1888,7 +1888,7 @@ Proof.
   assert (I1 : Inv s1) by (eapply (step_spawn s q msgs); eauto).
   assert (Hth1 : threads s1 (nextt s) = Some th) by (subst s1; cbn; now rewrite upd_same).
   destruct (run_thread_frame (send_fuel msgs) s1 (nextt s) o th I1 Hth1) as (A & B & C & D).
-  cbn [fst]. repeat split; auto.
+  cbn [fst]. split; [exact A|]. split; [exact B|]. split; [exact C|exact D].
 Qed.
 
 Lemma send_fails_inv s p msgs o :
@@ -1912,6 +1912,8 @@ Proof.
   destruct (tpc th2); try discriminate. now rewrite Hpc.
 Qed.
 
+Arguments send_call : simpl never.
+
 (* one SendTo of an instance = one Router.Send of the same messages *)
 Definition rsend (msgs : list nat) (o : bool) (s : state) (q : nat) : state * res :=
   (fst (send_call s q msgs o), opt_res (snd (send_call s q msgs o))).
@@ -1927,7 +1929,7 @@ Proof. intros (I & L & T). unfold rsend. cbn. now rewrite (send_fails_inv s p ms
 Lemma dead_kept s q : dead s -> q <> p -> dead (fst (rsend msgs o s q)).
 Proof.
   intros (I & L & T) Hq. destruct (send_call_frame s q msgs o I) as (A & B & _ & D).
-  unfold rsend. cbn [fst]. repeat split; auto; [now rewrite B|]. rewrite D; auto.
+  unfold rsend. cbn [fst]. split; [exact A|]. split; [now rewrite B|]. rewrite D; auto.
 Qed.
 
 (* SendToChildren: a dead child makes the call fail (at that child or earlier) *)
@@ -1982,4 +1984,115 @@ Example dead_example : dead 0 (st_of (run (init true false 0) [ACrash 0])).
 Proof.
   split; [|split; vm_compute; reflexivity].
   apply (reachable_inv true false 0 [ACrash 0]). vm_compute. reflexivity.
+Qed.
+
+(* ---- no connection is ever abandoned unclosed when the PEERS run the repaired code ------------------------- *)
+
+Definition NoSink (s : state) : Prop := forall c x, conns s c = Some x -> sink x = false.
+
+(* the peers close a connection whose registration they refuse (b122dd3 on their side too) *)
+Definition peer_closes (a : action) : Prop := match a with AAcceptClosing false _ => False | _ => True end.
+
+Lemma nosink_set_conn s c x : NoSink s -> sink x = false -> NoSink (set_conn s c x).
+Proof. intros N Hx c0 x0 H. cbn in H. upd_cases; [now inv_some|eauto]. Qed.
+
+Lemma nosink_close_refused s c : NoSink s -> NoSink (close_refused s c).
+Proof.
+  intros N. unfold close_refused. destruct (f11 s); auto. destruct (conns s c) as [x|] eqn:E; auto.
+  apply nosink_set_conn; auto. cbn. eapply N; eauto.
+Qed.
+
+Lemma nosink_same_conns s s' : conns s' = conns s -> NoSink s -> NoSink s'.
+Proof. intros E N c x H. rewrite E in H. eauto. Qed.
+
+Lemma thread_step_nosink s t o s' : NoSink s -> thread_step s t o = Some s' -> NoSink s'.
+Proof.
+  intros N H. unfold thread_step in H.
+  destruct (threads s t) as [th|]; [|discriminate].
+  destruct (tpc th); try discriminate.
+  - destruct (table s (tpeer th)); inv_some; eapply nosink_same_conns; eauto.
+  - destruct (listening s (tpeer th)); [unfold new_conn in H|]; inv_some; [|eapply nosink_same_conns; eauto].
+    intros c0 x0 H0. cbn in H0. upd_cases; [now inv_some|eauto].
+  - destruct (ident_send s c o); inv_some; [eapply nosink_same_conns; eauto|].
+    intros c0 x0 H0. cbn in H0. eapply (nosink_close_refused s c N); eauto.
+  - destruct (closed s); inv_some; [|eapply nosink_same_conns; eauto].
+    intros c0 x0 H0. cbn in H0. eapply (nosink_close_refused s c N); eauto.
+  - destruct (closed s); inv_some.
+    + intros c0 x0 H0. cbn in H0. eapply (nosink_close_refused s c N); eauto.
+    + destruct (conns s c) as [x|] eqn:E; [|discriminate]. destruct (loop x); try discriminate.
+      destruct (t0 =? t); inv_some. intros c0 x0 H0. cbn in H0. upd_cases; [inv_some; cbn; eauto|eauto].
+  - destruct (tmsgs th) as [|m rest]; inv_some; [eapply nosink_same_conns; eauto|].
+    destruct (conn_send s c m o) as [s1 ok] eqn:Hs.
+    destruct (conn_send_frame _ _ _ _ _ _ Hs) as (_&_&_&_&A5&_).
+    destruct ok; inv_some; intros c0 x0 H0; cbn in H0; rewrite A5 in H0; eauto.
+  - destruct (tmsgs th) as [|m rest]; inv_some; [eapply nosink_same_conns; eauto|].
+    destruct (conn_send s c' m o) as [s1 ok] eqn:Hs.
+    destruct (conn_send_frame _ _ _ _ _ _ Hs) as (_&_&_&_&A5&_).
+    destruct ok; inv_some; intros c0 x0 H0; cbn in H0; rewrite A5 in H0; eauto.
+Qed.
+
+Ltac nsk :=
+  let cc := fresh "cc" in let xx := fresh "xx" in let hh := fresh "hh" in
+  intros cc xx hh; cbn in hh; upd_cases; try (inv_some; cbn; eauto; fail); eauto.
+
+Lemma step_nosink s a s' : NoSink s -> peer_closes a -> step s a = Some s' -> NoSink s'.
+Proof.
+  intros N P H. destruct a; cbv beta iota zeta delta [step] in H.
+  - inv_some. eapply nosink_same_conns; eauto.
+  - eapply thread_step_nosink; eauto.
+  - repeat (break_if H; try discriminate); inv_some; auto; apply nosink_set_conn; auto; cbn; eauto.
+  - repeat (break_if H; try discriminate); inv_some; try (apply nosink_set_conn; auto; cbn; eauto).
+    eapply nosink_same_conns; eauto.
+  - repeat (break_if H; try discriminate); inv_some. nsk.
+  - repeat (break_if H; try discriminate); inv_some; nsk.
+  - unfold new_conn in H. repeat (break_if H; try discriminate); inv_some.
+    + apply nosink_close_refused. nsk.
+    + nsk.
+  - inv_some. nsk.
+  - destruct closes; [|destruct P]. repeat (break_if H; try discriminate); inv_some.
+    + apply nosink_close_refused. nsk.
+    + nsk.
+  - repeat (break_if H; try discriminate); inv_some; auto; try (apply nosink_close_refused; auto).
+    apply nosink_set_conn; auto. cbn. eauto.
+  - inv_some. intros cc xx hh. cbn in hh. destruct (conns s cc) as [y|] eqn:E; inv_some.
+    destruct ((cpeer y =? p) && negb (sink y)); cbn; eauto.
+  - repeat (break_if H; try discriminate); inv_some. eapply nosink_same_conns; eauto.
+  - inv_some. intros cc xx hh. cbn in hh. destruct (conns s cc) as [y|] eqn:E; inv_some.
+    destruct (mem cc (table s (cpeer y))); cbn; eauto.
+Qed.
+
+Lemma run_nosink acts : forall s s', NoSink s -> Forall peer_closes acts -> run s acts = Some s' -> NoSink s'.
+Proof.
+  induction acts as [|a r IH]; cbn; intros s s' N F H; [now inv_some|].
+  inversion F; subst. destruct (step s a) as [s1|] eqn:E; [|discriminate].
+  apply (IH s1 s'); auto. eapply step_nosink; eauto.
+Qed.
+
+(* resend after restart with the hypothesis discharged: when the peers close what they refuse, no
+   registered connection is a sink, in any reachable state *)
+Theorem resend_after_restart_closing_peers f b n acts s p msgs o :
+  run (init f b n) acts = Some s -> Forall peer_closes acts ->
+  closed s = false -> listening s p = true -> (tcp s = false \/ o = false) -> msgs <> [] ->
+  exists s' D, send_call s p msgs o = (s', Some ROk) /\
+    delivered s' = delivered s ++ D /\ map fst D = msgs /\
+    Forall (fun mc => exists x, conns s' (snd mc) = Some x /\ cpeer x = p /\ cinc x = incn s' p /\ sink x = false) D.
+Proof.
+  intros R F Hc Hl Hq Hm. eapply resend_after_restart; eauto.
+  intros c x _ Hx. eapply (run_nosink acts (init f b n)); eauto. intros c0 x0 H0. discriminate.
+Qed.
+
+Theorem errors_propagate_all msgs o p s dests self :
+  dead p s -> In p dests ->
+  snd (send_to_children state (rsend msgs o) s dests) = RErr /\
+  In p (snd (multicast state (rsend msgs o) s dests)) /\
+  (p <> self -> In p (snd (broadcast state (rsend msgs o) s self dests))) /\
+  snd (send_to_parent state (rsend msgs o) s (Some p)) = RErr /\
+  tn_send_to false false (snd (rsend msgs o s p)) = RErr /\
+  send_to_tree_node (snd (rsend msgs o s p)) = RErr /\
+  send_raw true (snd (rsend msgs o s p)) = RErr.
+Proof.
+  intros D Hin.
+  destruct (single_entry_points_dead_peer msgs o p s D) as (A & B & C & E & _).
+  split; [now apply send_to_children_dead_child|]. split; [now apply multicast_reports_dead_peer|].
+  split; [intros Hne; now apply broadcast_reports_dead_peer|]. auto.
 Qed.
